@@ -5,5 +5,17 @@ CHECKS = {
   text="Every string up to the length bound over seven YAML-significant alphabets and every derivation of an option-block grammar is executed on the real tokenizer; on the supported subset (decided by PyYAML's event stream) pairs must equal YAML's, elsewhere only TokenizeError with an in-text position may be raised. Exhaustive within the stated bounds, which is the right level for a pure string function whose defects live in short character interactions.",
   note="Trusted: PyYAML 6.0.3 as conforming loader; subset membership rules of DESIGN.md §5; strings beyond the length bound / outside the alphabets are not covered; termination = 60 s deadline per call.",
  ),
+ "C16": dict(
+  category="model_checking",
+  technique="bounded exhaustive enumeration of all strings over markup alphabets and of all well-formed forests up to a node bound, executed on tokenize_html; generator's own tree and an independent pre-order filter as reference models",
+  text="All strings up to length 5-6 (quick) / 6-8 (thorough) over four markup alphabets are parsed by the real HtmlToAst: no exception, each element walked once with the right parent, copies/strips isolated from the original. Every well-formed forest up to 3 (4) nodes must round-trip exactly and parse to the generator's tree; every find() query from a finite menu is compared with an independent filter. Exhaustive within bounds.",
+  note="Trusted: the forest grammar as definition of well-formed HTML; attribute filters with empty value not queried; strings/trees beyond the bounds not covered.",
+ ),
+ "C19": dict(
+  category="model_checking",
+  technique="bounded exhaustive enumeration of (pattern, name) pairs, filter quadruples, cache visiting orders and inv: link documents, executed on the real matcher/filters/renderer against a reference wildcard matcher",
+  text="Every pattern up to length 5 (6) against every name up to length 4 over {a,A,*,\\,.,+}, including revisits through the 256-entry regex cache, every filter quadruple of a 7x7x7x8 menu over generated inventories in native and Sphinx representation, and every inv: link spelling of a finite menu rendered through docutils, compared with a reference matcher written from the docstring and a list-comprehension filter.",
+  note="Trusted: mcx/models/wildcard.py as the documented semantics; names with line breaks and empty path parts not generated; Sphinx intersphinx path of inv: links covered by the Sphinx system when present in evidence.",
+ ),
 }
 NOT_APPLICABLE = {}
